@@ -218,9 +218,14 @@ def run(ctx):
                                 vals = {v: tg for v, tg in t2["v"]}
                                 none_edges.append((bj, vals.get("0", t2["ow"])))
                                 seen_alt = True
-        for bi, pl, line in places_read_in(rwc):
-            fs_ = field_steps(pl)
-            if any(x[0] == LED and x[2] == "active_epoch" for x in fs_) and any(x[2] == "started_at_lsn" for x in fs_):
+        # blocks that give an Option<Lsn> local a value that was read through `active_epoch`
+        for bi, si, place, rv, line in rwc.assigns():
+            if place[1] or "Lsn" not in rwc.locals[place[0]] or "Option" not in rwc.locals[place[0]]:
+                continue
+            reads_ = set()
+            for o_ in operands_of_rvalue(rv):
+                reads_ |= chain_field_reads(rwc, o_)
+            if ("WriterEpochLedger", "active_epoch") in reads_ and ("WriterEpochLedger", "closed_epochs") not in reads_:
                 act_reads.append(bi)
         if none_edges and act_reads:
             starts = [tg for (sw_, tg) in none_edges]
